@@ -72,25 +72,42 @@ class LDMService:
             ):
                 subscriptions_to_remove.add(subscription)
                 continue
-            search_result = self.search_data(subscription)
-            if not search_result:
-                continue
-            if (
-                subscription.subscription_request.multiplicity is not None
-                and subscription.subscription_request.multiplicity > len(search_result)
-            ):
-                continue
-
-            ordered_search_result = search_result
-            if subscription.subscription_request.order is not None:
-                ordered_sequences = self.order_search_results(
-                    search_result, subscription.subscription_request.order
-                )
-                if ordered_sequences:
-                    ordered_search_result = ordered_sequences[0]
-            self.process_notifications(subscription, ordered_search_result)
+            try:
+                self.attend_subscription(subscription)
+            except Exception as e:  # pylint: disable=broad-exception-caught
+                # A subscription that cannot be served (its order attribute is not comparable across the selected
+                # objects, its callback raises) must not starve the other subscriptions nor the caller.
+                print(f"Error attending a subscription of application "
+                      f"{subscription.subscription_request.application_id}: {repr(e)}")
         for subscription in subscriptions_to_remove:
             self.remove_subscription(subscription)
+
+    def attend_subscription(self, subscription: SubscriptionInfo) -> None:
+        """
+        Method to attend one subscription: search, multiplicity, order and notification.
+
+        Parameters
+        ----------
+        subscription : SubscriptionInfo
+            Subscription to be attended.
+        """
+        search_result = self.search_data(subscription)
+        if not search_result:
+            return
+        if (
+            subscription.subscription_request.multiplicity is not None
+            and subscription.subscription_request.multiplicity > len(search_result)
+        ):
+            return
+
+        ordered_search_result = search_result
+        if subscription.subscription_request.order is not None:
+            ordered_sequences = self.order_search_results(
+                search_result, subscription.subscription_request.order
+            )
+            if ordered_sequences:
+                ordered_search_result = ordered_sequences[0]
+        self.process_notifications(subscription, ordered_search_result)
 
     def search_data(self, subscription: SubscriptionInfo) -> tuple[dict, ...]:
         """
